@@ -30,17 +30,24 @@ fn cases_for(rng: &mut StdRng, vctx: &valve::Ctx, players: &LayoutSet, mode: &st
                 let mut expected = json!({});
                 let target = if rng.gen_bool(0.5) { "rules" } else { "players" };
                 let mut multi = 0;
+                let mut fits = true;
                 for (i, sec) in ["info", "players", "rules"].iter().enumerate() {
-                    // enough content to cut into k non-trivial pieces
-                    let filt = |s: &Value| s["n"].as_u64().map_or(true, |n| n >= 2);
-                    let (payload, exp, _) = valve::build_section(rng, vctx, sec, &engine, 440, if *sec == target { Some(&filt) } else { None }, None);
+                    // enough content to cut into k non-trivial pieces, little enough for k MTU-sized fragments
+                    let filt = |s: &Value| s["n"].as_u64().map_or(true, |n| (2 ..= 8).contains(&n));
+                    let small = |s: &Value| s["n"].as_u64().map_or(true, |n| n <= 8);
+                    let (payload, exp, _) = valve::build_section(rng, vctx, sec, &engine, 440, Some(if *sec == target { &filt } else { &small }), None);
                     expected[*sec] = exp[*sec].clone();
                     if *sec == target {
                         multi = i;
+                        fits &= payload.len() <= k * 1200;
                         batches.push(valve::split(rng, vctx, &payload, k, gold, true, false));
                     } else {
+                        fits &= payload.len() <= 1400;
                         batches.push(vec![payload]);
                     }
+                }
+                if !fits {
+                    continue;
                 }
                 out.push(Case {
                     name: format!("valve {} split ({target})", if gold { "goldsrc" } else { "source" }),
@@ -81,10 +88,17 @@ fn cases_for(rng: &mut StdRng, vctx: &valve::Ctx, players: &LayoutSet, mode: &st
                 }
                 let b = proto::build(rng, &l2);
                 let mut multi = b.multi.expect("multi-datagram builder");
+                let lim = proto::datagram_limit(p);
+                if b.batches.iter().flatten().any(|d| d.len() > lim) {
+                    continue; // this response does not fit into k datagrams
+                }
                 if *p == "unreal2" {
                     // the fragmented section is the one with at least k entries
                     let s = &l["shape"];
                     multi = if s["rules"].as_u64().unwrap() + s["mutators"].as_u64().unwrap() >= k as u64 { 1 } else { 2 };
+                }
+                if b.batches[multi].len() != k {
+                    continue; // (the builder needed more datagrams than k for this response)
                 }
                 out.push(Case {
                     name: format!("{p} x{k}"),
